@@ -58,7 +58,10 @@ func (cw *CodeWriter) separateSigns(next byte) {
 	if next != '+' && next != '-' {
 		return
 	}
-	if n := cw.Builder.Len(); n > 0 && cw.Builder.String()[n-1] == next {
+	written := cw.Builder.String()
+	n := len(written)
+	// "a < !--b" must not become "a<!--b" either: "<!--" opens a comment in scripts
+	if n > 0 && written[n-1] == next || next == '-' && n > 1 && written[n-2:] == "<!" {
 		cw.Builder.WriteByte(' ')
 		if cw.Mapper != nil {
 			cw.Mapper.AdvanceColumn(1)
